@@ -54,7 +54,9 @@ typedef struct { _Bool has; word_t v; } optval;
 #endif
 unsigned a_pop_idx[NN], a_push_idx[NN]; marked_ptr a_next[NN]; marked_value a_entry[NN][XV_E];
 _Bool a_live[NN]; unsigned a_retired[NN], a_deleted[NN];       /* ghost: allocated and not deleted / retire count / delete count */
-struct node { unsigned pop_idx; marked_value ent[XV_E]; unsigned push_idx; marked_ptr next; _Bool g_live; unsigned g_retired, g_deleted; };
+/* ghost a_pend[i]: bit k = a consumer that drew ticket k of node i is still inside pop() (it will take the value or mark the entry INVALID) */
+unsigned a_pend[NN];
+struct node { unsigned pop_idx; marked_value ent[XV_E]; unsigned push_idx; marked_ptr next; _Bool g_live; unsigned g_retired, g_deleted, g_pend; };
 struct ramq { marked_ptr _head, _tail; };
 #define NPTR(i) ((word_t)(((i) + 1) << 6))
 
@@ -105,7 +107,7 @@ static unsigned nidx(word_t w);
  * the owner's destructor deletes the node (running the real ~node) unless it is empty */
 static marked_ptr up_release_fn(marked_ptr* x) { marked_ptr p = *x; *x = 0; return p; }
 #define XV_UP_RELEASE(x) up_release_fn(&(x))
-#define XV_UP_DTOR(x) do { if ((x) != 0) { XV_DELETE_NODE(x); (x) = 0; } } while (0)
+#define XV_UP_DTOR(x) { if ((x) != 0) { XV_DELETE_NODE(x); (x) = 0; } }      /* no do-while: loop numbering of the function must not change */
 #define N_pop_idx(g) (a_pop_idx[node_idx(g)])
 #define N_push_idx(g) (a_push_idx[node_idx(g)])
 #define N_next(g) (a_next[node_idx(g)])
@@ -166,7 +168,7 @@ static void TR_delete_value(word_t raw) {
 static struct node snap(unsigned i) {
   struct node n; n.pop_idx = a_pop_idx[i]; n.push_idx = a_push_idx[i]; n.next = a_next[i];
   for (unsigned s = 0; s < XV_E; s++) n.ent[s] = a_entry[i][s];
-  n.g_live = a_live[i]; n.g_retired = a_retired[i]; n.g_deleted = a_deleted[i];
+  n.g_live = a_live[i]; n.g_retired = a_retired[i]; n.g_deleted = a_deleted[i]; n.g_pend = a_pend[i];
   return n;
 }
 static void put(unsigned i, const struct node* n) {
@@ -273,6 +275,10 @@ static _Bool node_inv(const struct node* n) {
     if (!IS_ENTRY_WORD(w)) return 0;
     if (TK(k) >= n->push_idx && IS_VALUE(w)) return 0;       /* values only at tickets already handed to a producer */
     if (w == INVALID && TK(k) >= n->pop_idx) return 0;       /* invalidated only by the consumer holding that ticket */
+    /* every ticket handed to a consumer is resolved - value taken (it stays in the entry) or entry marked INVALID - or that consumer is still
+     * inside pop(): no claimed-but-unmarked free entry is ever left behind (a later push would store into it and no pop would come back for it) */
+    if (TK(k) < n->pop_idx && w == 0 && !((n->g_pend >> k) & 1)) return 0;
+    if (TK(k) >= n->pop_idx && ((n->g_pend >> k) & 1)) return 0;
   }
   return 1;
 }
@@ -284,10 +290,11 @@ static struct node havoc_node(unsigned i) {
   XV_ASSUME(pt <= XV_E + 4 && qt <= XV_E + 4);       /* counterexample extraction only: counters the native replay can set exactly */
 #endif
   n.push_idx = tk_any(pt); n.pop_idx = tk_any(qt);            /* tickets handed out so far: any number, also far beyond entries_per_node */
+  n.g_pend = nondet_uint() & ((1u << XV_E) - 1);               /* consumers of other threads that are in the middle of pop() */
   XV_ASSUME(node_inv(&n));
-  put(i, &n); s_pre[i] = n; return n;
+  put(i, &n); a_pend[i] = n.g_pend; s_pre[i] = n; return n;
 }
-static void dead_node(unsigned i) { struct node n; havoc_words(&n); n.g_live = 0; n.g_retired = 0; n.g_deleted = 0; put(i, &n); s_pre[i] = n; }
+static void dead_node(unsigned i) { struct node n; havoc_words(&n); n.g_live = 0; n.g_retired = 0; n.g_deleted = 0; n.g_pend = 0; put(i, &n); a_pend[i] = 0; s_pre[i] = n; }
 /* a counter went from a to b by drawing at most m tickets */
 static _Bool advanced(unsigned a, unsigned b, unsigned m) {
   for (unsigned d = 0; d <= XV_E + 3; d++) if (d <= m && b == a + TK(d)) return 1;
@@ -309,6 +316,8 @@ static unsigned pat_of(const struct node* n) {
   for (unsigned s = 0; s < XV_E; s++) p |= (n->ent[s] == 0 ? 0u : n->ent[s] == INVALID ? 2u : 1u) << (2 * s);
   return p;
 }
+/* is the consumer of the ticket with counter value idx still pending? */
+static _Bool pend_at(const struct node* n, unsigned idx) { for (unsigned k = 0; k < XV_E; k++) if (idx == TK(k)) return (n->g_pend >> k) & 1; return 0; }
 static _Bool listed(const struct node* pre, unsigned i) {      /* node i reachable from element 0 in the pre-state (list 0 -> 1 -> 2) */
   return i == 0 || (i == 1 && pre[0].next == NPTR(1)) || (i == 2 && pre[0].next == NPTR(1) && pre[1].next == NPTR(2));
 }
@@ -530,6 +539,7 @@ void h_push(void) {
   if (fT < max_idx) {                          /* A: a free ticket in the tail node */
     pn = 0; pidx = fT;
     XV_OBL("ram.push.slot", T.ent[sT] == in_val && T.push_idx == fT + XV_STEP);
+    XV_OBL("ram.push.slot", fT >= T0.pop_idx || pend_at(&T0, fT));      /* a ticket no consumer has drawn yet, or whose consumer is still waiting for it */
     XV_OBL("ram.push.slot", T.next == T0.next && q._tail == NPTR(0) && g_alloc_count == 0);
     check_node_unchanged(&T, &T0, (int)sT, 0); check_node_unchanged(&N, &N0, -1, 1);
 #if XV_E > 1
@@ -549,6 +559,7 @@ void h_push(void) {
       pn = 1; pidx = fN;
       XV_OBL("ram.push.new_node", q._tail == NPTR(1) && g_alloc_count == 0 && N.next == 0);
       XV_OBL("ram.push.slot", N.ent[sN] == in_val && N.push_idx == fN + XV_STEP);
+      XV_OBL("ram.push.slot", fN >= N0.pop_idx || pend_at(&N0, fN));
       check_node_unchanged(&N, &N0, (int)sN, 0);
       XV_CANARY("push.helped_tail");
     } else {
@@ -639,7 +650,9 @@ void h_pop(void) {
 #endif
     if (hp == 0 && ridx == pre[0].pop_idx) XV_CANARY("pop.value");
   } else {
-    XV_OBL("ram.pop.empty", !g_in);                  /* 'empty' only if there was no value in the queue */
+    XV_OBL("ram.pop.empty", !g_in);                  /* 'empty' only if there was no value in the queue ... */
+    for (unsigned i = 0; i < 3; i++) for (unsigned k = 0; k < XV_E; k++)     /* ... and no claimed-but-unmarked entry is left behind */
+      if (i <= hp && TK(k) >= pre[i].pop_idx && TK(k) < post[i].pop_idx) XV_OBL("ram.pop.empty", post[i].ent[spec_slot(k)] != 0);
     XV_OBL("ram.pop.hands_over_once", g_get_count == 0);
     XV_OBL("ram.pop.empty", post[hp].next == 0);
     if (hp == 0 && post[0].pop_idx == pre[0].pop_idx) XV_CANARY("pop.empty_untouched");
@@ -695,10 +708,17 @@ static void havoc_shared(_Bool rely) {
   mon_q->_head = hd; mon_q->_tail = tl;
 }
 #ifdef XV_INT
-_Bool env_on; int env_kind; _Bool env_linked;
+_Bool env_on; int env_kind; _Bool env_linked, env_b_drew; unsigned env_b_idx;
 void xv_env(void) {
   if (!env_on) return;
   if (env_kind == 0) { if (nondet_bool()) havoc_shared(1); return; }
+  if (env_kind == 2) {       /* one competing consumer B draws a ticket from the head node 0 (its fetch_add) at an arbitrary moment and stays inside pop() */
+    if (!env_b_drew && nondet_bool()) {
+      env_b_drew = 1; env_b_idx = a_pop_idx[0]; a_pop_idx[0] += XV_STEP;
+      for (unsigned k = 0; k < XV_E; k++) if (env_b_idx == TK(k)) a_pend[0] |= 1u << k;
+    }
+    return;
+  }
   /* env_kind 1: one competing producer B: draws a ticket on the full tail node 0, links its node 1 behind it, later swings the tail */
   if (!env_linked) {
     if (nondet_bool() && a_next[0] == 0 && a_push_idx[0] >= max_idx) { a_next[0] = NPTR(1); a_push_idx[0] += XV_STEP; env_linked = 1; }
@@ -746,6 +766,8 @@ void h_pop_int(void) {
     if (it_entry_xchg) XV_CANARY("pop_int.value_by_exchange"); else XV_CANARY("pop_int.value_by_load");
   } else {
     XV_OBL("ram.pop.hands_over_once", g_get_count == 0);
+    /* pop reports 'empty' only from an iteration that holds no ticket of the node any more: none drawn, one beyond the node, or the entry marked INVALID */
+    XV_OBL("ram.pop.invalidate", !IT_HAS_TICKET || (it_entry_xchg && it_entry_seen == 0));
     XV_CANARY("pop_int.empty");
   }
   XV_OBL("ram.pop.commit", g_alloc_count == 0 && g_delete_count == 0 && g_released == 0 && g_del_total == 0);
@@ -805,5 +827,52 @@ void h_push_rollback(void) {
   }
   for (unsigned s = 0; s < XV_E; s++) if (T0.ent[s] != 0) XV_OBL("ram.push.rollback", P[0].ent[s] == T0.ent[s]);
   XV_OBL("ram.push.rollback", q._head == head0 && P[0].g_live && P[1].g_live && P[0].g_retired == 0 && P[1].g_retired == 0);
+#endif
+}
+
+/* =========================== INT: two consumers race for the last tickets of a node (C04), then a push =========================== */
+void h_pop_race(void) {
+#ifdef XV_INT
+  reset_ghost();
+  struct ramq q;
+  struct node H0 = havoc_node(0); XV_ASSUME(H0.next == 0);       /* the only node of the queue */
+  for (unsigned i = 1; i < NN; i++) dead_node(i);
+  g_fresh = 1; q._head = NPTR(0); q._tail = NPTR(0); mon_q = &q;
+  env_kind = 2; env_b_drew = 0; env_on = 1;
+  optval r = ram_pop(&q);
+  env_on = 0;
+  struct node H1 = snap(0);
+  unsigned b_slot = 0; _Bool b_in_node = 0;
+  if (env_b_drew) b_slot = slot_of_idx(env_b_idx, &b_in_node);
+  /* every ticket this pop drew is resolved when it returns: the value handed out, or the (free) entry marked INVALID */
+  unsigned taken = 0;
+  for (unsigned k = 0; k < XV_E; k++) {
+    _Bool drawn_by_us = TK(k) >= H0.pop_idx && TK(k) < H1.pop_idx && !(env_b_drew && env_b_idx == TK(k));
+    marked_value a = H0.ent[spec_slot(k)], b = H1.ent[spec_slot(k)];
+    if (drawn_by_us && a == 0) XV_OBL("ram.pop.invalidate", b == INVALID);
+    if (drawn_by_us && IS_VALUE(a)) { XV_OBL("ram.pop.slot", r.has && r.v == a && b == a); taken++; }
+  }
+  XV_OBL("ram.pop.slot", taken == (r.has ? 1u : 0u));
+  if (!r.has) {
+    for (unsigned k = 0; k < XV_E; k++)
+      if (TK(k) >= H0.pop_idx && TK(k) < H1.pop_idx && !(env_b_drew && env_b_idx == TK(k))) XV_OBL("ram.pop.empty", H1.ent[spec_slot(k)] != 0);
+    if (env_b_drew && H1.pop_idx > H0.pop_idx + XV_STEP) XV_CANARY("pop_race.empty_after_losing_the_ticket");
+  }
+  /* B finishes: takes the value of its ticket or marks the entry */
+  if (env_b_drew && b_in_node) { if (a_entry[0][b_slot] == 0) a_entry[0][b_slot] = INVALID; }
+  a_pend[0] = H0.g_pend;
+  struct node H2 = snap(0);
+  XV_OBL("ram.inv.preserved", node_inv(&H2));
+  /* and a push that follows does not put its value where no consumer will look again */
+  in_val = nondet_word(); XV_ASSUME(in_val != 0 && (in_val & MARK63) == 0);
+  for (unsigned s = 0; s < XV_E; s++) XV_ASSUME(H2.ent[s] != in_val);
+  ram_push(&q, in_val);
+  struct node H3 = snap(0);
+  _Bool reachable = 0;
+  for (unsigned k = 0; k < XV_E; k++)
+    if (H3.ent[spec_slot(k)] == in_val) reachable = TK(k) >= H3.pop_idx || ((H3.g_pend >> k) & 1);
+  if (a_live[1] && a_entry[1][0] == in_val && a_pop_idx[1] == 0 && H3.next == NPTR(1)) reachable = 1;
+  XV_OBL("ram.push.slot", reachable);
+  if (env_b_drew) XV_CANARY("pop_race.raced"); else XV_CANARY("pop_race.alone");
 #endif
 }
